@@ -15,14 +15,14 @@ from sx import Str, Sym
 PROP = "C20"
 LEVEL = "other"
 PROP_FILE = "C20_NoPanic"
-THEOREMS = ["c20_levenshtein_no_panic", "c20_levenshtein_refines", "c20_fuzzy_search_no_panic", "c20_fuzzy_search_candidate", "c20_fuzzy_fold_minimal", "c20_wildcard_no_panic",
+THEOREMS = ["c20_levenshtein_no_panic", "c20_levenshtein_refines", "c20_levenshtein_self", "c20_fuzzy_search_no_panic", "c20_fuzzy_search_candidate", "c20_fuzzy_fold_minimal", "c20_wildcard_no_panic",
             "c20_wildcard_refines", "c20_contains_two_no_panic", "c20_ip_strings_no_panic", "c20_ip_in_range_no_panic", "c20_ip_prefix_bound", "c20_ip_prefix_needed",
             "c20_display_extn_no_panic", "c20_display_extn_old_refuted",
             "c20_policyset_core_no_panic", "c20_policyset_history_no_panic"]
 
 MANIFEST = {
     "category": "other",
-    "text": "Partial by nature. Proof part (props/C20_NoPanic.v, 16 theorems, no axioms): index-level transcriptions of four functions whose panic freedom rests on invariants asserted only in prose (fuzzy_match levenshtein_distance/fuzzy_search_limited, Pattern::wildcard_match, IPAddr::is_in_range and the byte-level slicing of the ip parser's contains_at_least_two, est display of __extn calls) with every slice index, unsigned subtraction and shift made an explicit Panic outcome; theorems: no input reaches a Panic (plus: the index-level wildcard loop computes the declarative matcher of C02; the Levenshtein matrix loops compute the Wagner-Fischer recurrence; the ip parser establishes the prefix bound the subtraction needs; the pre-fix display code panicked exactly on method-style calls without arguments). These transcriptions are run against the implementation on generated inputs every run (site_correspondence in the evidence). Everything else is exploration, labelled as such: all text/JSON/protobuf/FFI entry points are driven with valid, structure-mutated and byte-mutated documents through the pipelines parse -> {print, to_json, format, validate, authorize, link, encode} with every error rendered, under catch_unwind, in subprocesses so that aborts are seen too.",
+    "text": "Partial by nature. Proof part (props/C20_NoPanic.v, 17 theorems, no axioms): index-level transcriptions of four functions whose panic freedom rests on invariants asserted only in prose (fuzzy_match levenshtein_distance/fuzzy_search_limited, Pattern::wildcard_match, IPAddr::is_in_range and the byte-level slicing of the ip parser's contains_at_least_two, est display of __extn calls) with every slice index, unsigned subtraction and shift made an explicit Panic outcome; theorems: no input reaches a Panic (plus: the index-level wildcard loop computes the declarative matcher of C02; the Levenshtein matrix loops compute the Wagner-Fischer recurrence; the ip parser establishes the prefix bound the subtraction needs; the pre-fix display code panicked exactly on method-style calls without arguments). These transcriptions are run against the implementation on generated inputs every run (site_correspondence in the evidence). Everything else is exploration, labelled as such: all text/JSON/protobuf/FFI entry points are driven with valid, structure-mutated and byte-mutated documents through the pipelines parse -> {print, to_json, format, validate, authorize, link, encode} with every error rendered, under catch_unwind, in subprocesses so that aborts are seen too.",
     "technique": "Coq lemmas for panic-site invariants of modelled functions + runtime exploration (structure-aware and byte-level mutation) under catch_unwind",
     "note": "The exploration part is not a proof and is labelled as such in the evidence (level other).",
 }
